@@ -52,6 +52,8 @@ type observerObj struct {
 	evt        int
 	cb         int
 	registered bool
+	rejected   bool // the last Register call panicked: the library left the object with a stale id
+	Foreign    bool // rejected before the last Reset: like a pre-Reset handle, not used any more (known finding)
 }
 
 // Sim is one world under test plus the user-side objects a script refers to by index.
@@ -465,6 +467,9 @@ func (s *Sim) exec(line []int64) []int64 {
 		w.Reset()
 		for _, o := range s.Observers {
 			o.registered = false
+			if o.rejected {
+				o.Foreign = true
+			}
 		}
 	case 14:
 		if r.num() != 0 {
@@ -571,8 +576,10 @@ func (s *Sim) exec(line []int64) []int64 {
 		return []int64{int64(oi)}
 	case 26:
 		o := s.Observers[r.num()]
+		o.rejected = !o.registered
 		o.obs.Register(w)
 		o.registered = true
+		o.rejected = false
 	case 27:
 		o := s.Observers[r.num()]
 		o.obs.Unregister(w)
